@@ -467,10 +467,21 @@ pub fn multi_header() -> Value {
     let mut h = base(sign("x-amz-meta-t:alice\n"));
     h.push(("x-amz-meta-t".into(), "alice".into())); h.push(("x-amz-meta-t".into(), "mallory".into()));
     let (st_b, calls_b, body_b) = send("GET", "/bkt/key", "", h);
+    // (c) values in DESCENDING order, signed in request order ("do not sort the values")
+    let mut h = base(sign("x-amz-meta-t:zoe,adam\n"));
+    h.push(("x-amz-meta-t".into(), "zoe".into())); h.push(("x-amz-meta-t".into(), "adam".into()));
+    let (st_c, calls_c, body_c) = send("GET", "/bkt/key", "", h);
+    // (d) the same signature with the two values swapped afterwards
+    let mut h = base(sign("x-amz-meta-t:zoe,adam\n"));
+    h.push(("x-amz-meta-t".into(), "adam".into())); h.push(("x-amz-meta-t".into(), "zoe".into()));
+    let (st_d, calls_d, body_d) = send("GET", "/bkt/key", "", h);
     let ok_a = calls_a.len() == 1; let ok_b = calls_b.is_empty() && st_b >= 400;
-    json!({"violates": !(ok_a && ok_b), "input": {"signed_header": "x-amz-meta-t", "a": "sent twice, both values signed", "b": "signed once, a second value appended"},
-           "expected": {"a": "accepted", "b": "refused"},
-           "observed": {"a": {"status": st_a, "backend_calls": calls_a, "body": body_a.chars().take(120).collect::<String>()}, "b": {"status": st_b, "backend_calls": calls_b, "body": body_b.chars().take(120).collect::<String>()}},
+    let ok_c = calls_c.len() == 1; let ok_d = calls_d.is_empty() && st_d >= 400;
+    let o = |st: u16, calls: &Vec<String>, body: &String| json!({"status": st, "backend_calls": calls, "body": body.chars().take(120).collect::<String>()});
+    json!({"violates": !(ok_a && ok_b && ok_c && ok_d), "input": {"signed_header": "x-amz-meta-t", "a": "sent twice (alice, bob), both values signed", "b": "signed once, a second value appended",
+                                                   "c": "sent twice in descending order (zoe, adam), signed in that order", "d": "signed as (zoe, adam), sent as (adam, zoe)"},
+           "expected": {"a": "accepted", "b": "refused", "c": "accepted", "d": "refused"},
+           "observed": {"a": o(st_a, &calls_a, &body_a), "b": o(st_b, &calls_b, &body_b), "c": o(st_c, &calls_c, &body_c), "d": o(st_d, &calls_d, &body_d)},
            "replay_args": ["sigv4-multi-header"]})
 }
 
@@ -570,4 +581,37 @@ pub fn v2_append() -> Value {
         }
     }
     json!({"violates": false, "evaluated": n})
+}
+
+/// sigv4-scope: GET /bkt/key signed correctly (header auth); the Credential presented in the Authorization header is then altered
+/// in one component of its scope (date, region, service, terminator) while the signature stays: every such request must be refused
+pub fn scope_tamper() -> Value {
+    let (date, stamp) = now_stamp(0);
+    let payload = "UNSIGNED-PAYLOAD";
+    let host = "localhost";
+    let canonical = format!("GET\n/bkt/key\n\nhost:{host}\nx-amz-content-sha256:{payload}\nx-amz-date:{stamp}\n\nhost;x-amz-content-sha256;x-amz-date\n{payload}");
+    let scope = format!("{date}/us-east-1/s3/aws4_request");
+    let sts = format!("AWS4-HMAC-SHA256\n{stamp}\n{scope}\n{}", sha256_hex(canonical.as_bytes()));
+    let sig = hex(&hmac(&signing_key(&date, "us-east-1", "s3"), sts.as_bytes()));
+    // yesterday's date in the scope (the same length, a valid date)
+    let y = time::OffsetDateTime::now_utc() - time::Duration::days(1);
+    let yesterday = format!("{:04}{:02}{:02}", y.year(), u8::from(y.month()), y.day());
+    let cases: Vec<(&str, String, bool)> = vec![
+        ("unaltered", scope.clone(), true),
+        ("scope date = yesterday", format!("{yesterday}/us-east-1/s3/aws4_request"), false),
+        ("scope date = 20130524", "20130524/us-east-1/s3/aws4_request".to_owned(), false),
+        ("region us-west-2", format!("{date}/us-west-2/s3/aws4_request"), false),
+        ("service sts", format!("{date}/us-east-1/sts/aws4_request"), false),
+    ];
+    let mut all = Vec::new(); let mut first_bad: Option<&str> = None;
+    for (what, sc, want) in &cases {
+        let auth = format!("AWS4-HMAC-SHA256 Credential={AK}/{sc}, SignedHeaders=host;x-amz-content-sha256;x-amz-date, Signature={sig}");
+        let (st, calls, body) = send("GET", "/bkt/key", "", vec![("host".into(), host.into()), ("x-amz-content-sha256".into(), payload.into()), ("x-amz-date".into(), stamp.clone()), ("authorization".into(), auth)]);
+        let accepted = calls.len() == 1;
+        let ok = accepted == *want;
+        all.push(json!({"credential_scope": what, "status": st, "backend_calls": calls, "ok": ok, "body": body.chars().take(120).collect::<String>()}));
+        if !ok && first_bad.is_none() { first_bad = Some(what); }
+    }
+    json!({"violates": first_bad.is_some(), "input": {"request": "GET /bkt/key, SigV4 header auth, signed for <today>/us-east-1/s3/aws4_request", "first_failing_case": first_bad},
+           "expected": "accepted only with the scope it was signed for", "observed": all, "replay_args": ["sigv4-scope"]})
 }
